@@ -86,6 +86,7 @@ class ParamsTrans:
             grad = self.tape.jacobian(
                 vals, self.vm.trainable_variables, unconnected_gradients="zero"
             )
+            grad = tf.stack(grad, axis=-1)
         if not keep:
             del self.tape
         # print(grad)
